@@ -236,3 +236,9 @@ Proof.
     - apply Nat.add_0_r. }
   rewrite <- Es. exact E.
 Qed.
+
+Lemma run_app ts1 : forall ts2 s, run s (ts1 ++ ts2) = match run s ts1 with Some s1 => run s1 ts2 | None => None end.
+Proof.
+  induction ts1 as [|t r IH]; intros ts2 s; cbn [app run]; [reflexivity|].
+  destruct (step s t); [apply IH | reflexivity].
+Qed.
